@@ -177,7 +177,9 @@ def check_time_power(case, r: R):
 @st.composite
 def time_case(draw):
     import checks.c09 as c9
-    return draw(c9.multi_case())
+    # ideal sources only: the sum over all elements needs one sign convention per element, which the time function of a
+    # lossy periodic source does not have (DESIGN.md section 5, observations)
+    return draw(c9.multi_case(lossy_prob=0))
 
 
 def check_transient_power(case, r: R):
